@@ -216,10 +216,11 @@ class StreamingHandler(AsyncCallbackHandler, AsyncIterator):
                 self.current_chunk = self.current_chunk[len(self.prefix) :]
                 self.prefix = None
 
-                # If we're left with something, we "forward it".
-                if self.current_chunk:
-                    await self._process(self.current_chunk)
-                    self.current_chunk = ""
+                # If we're left with something, we "forward it" through the logic for
+                # the suffix and the stop chunks.
+                rest, self.current_chunk = self.current_chunk, ""
+                if rest:
+                    await self.push_chunk(rest)
         elif self.suffix or self.stop:
             # If we have a suffix, we always check that the total current chunk does not end
             # with the suffix.
